@@ -102,8 +102,7 @@ const timeoutText = "Task timed out after 3.00 seconds"
 func (s scen) judge(e *sched.Exec) (string, string, *sched.Failure) {
 	w := stack.WorldOf(e)
 	if e.Crash != nil {
-		top := crashSite(e.Crash.Stack)
-		return "crash", e.Crash.Value, &sched.Failure{Clause: "1", Sig: "crash:" + top, Msg: "emulator crashed: panic in " + e.Crash.Name + ": " + e.Crash.Value + "\n" + firstLines(e.Crash.Stack, 14) + "\n" + w.Render(false)}
+		return stack.CrashFailure(e, "1")
 	}
 	if e.Status() != sched.Finished {
 		return e.Status().String(), "", &sched.Failure{Clause: "3", Sig: "hang", Msg: "a caller never got an answer (" + e.Status().String() + ") blocked=" + fmt.Sprint(e.Blocked) + "\n" + w.Render(false)}
